@@ -14,8 +14,9 @@ type Locker = sync.Locker
 
 // Mutex is a scheduler-visible mutual exclusion lock.
 type Mutex struct {
-	real sync.Mutex
-	held bool
+	real     sync.Mutex
+	held     bool
+	realHeld bool // the real mutex is locked (pass-through mode); written only by its holder
 }
 
 func managed() bool {
@@ -31,6 +32,7 @@ func (m *Mutex) Lock() {
 		}
 		m.real.Lock()
 		m.held = true
+		m.realHeld = true
 		return
 	}
 	vsched.Point(&vsched.Op{Kind: vsched.KLock, Obj: m, Ready: func() bool { return !m.held }})
@@ -44,7 +46,14 @@ func (m *Mutex) Unlock() {
 			m.held = false
 			return
 		}
+		// a goroutine of a finished execution may still be unwinding its deferred unlocks (Goexit) when the next
+		// execution is already the active one: its mutex was never locked for real
+		if !m.realHeld {
+			m.held = false
+			return
+		}
 		m.held = false
+		m.realHeld = false
 		m.real.Unlock()
 		return
 	}
